@@ -34,3 +34,8 @@ Proof.
   intros H. unfold zget, zlen in *. destruct (Z.ltb_spec i 0); [reflexivity|].
   apply nth_error_None. lia.
 Qed.
+
+Lemma nth_skipn {A} (l : list A) n k d : nth k (skipn n l) d = nth (n + k) l d.
+Proof. revert l; induction n as [|n IH]; intros l; [reflexivity|]. destruct l as [|x l]; cbn; [destruct k; reflexivity|]. apply IH. Qed.
+Lemma nth_firstn {A} (l : list A) n k d : (k < n)%nat -> nth k (firstn n l) d = nth k l d.
+Proof. revert l k; induction n as [|n IH]; intros l k H; [lia|]. destruct l as [|x l]; [destruct k; reflexivity|]. destruct k; cbn; [reflexivity|]. apply IH. lia. Qed.
